@@ -250,12 +250,13 @@ PROPS = {
         "assumptions": COMMON_ASSUME,
     },
     "C08": {
-        "rules": ["R-DERIVED", "R-SAVEPURE", "R-KILLUSE", "R-DANGLING", "R-TAGSELF", "R-RESAVE", "R-EXTENT", "R-PADDING", "R-ZEROFILL", "R-NONDET", "R-STATE", "R-INITEXTENT"],
+        "rules": ["R-CURSORFILL", "R-DERIVED", "R-SAVEPURE", "R-KILLUSE", "R-DANGLING", "R-TAGSELF", "R-RESAVE", "R-EXTENT", "R-PADDING", "R-ZEROFILL", "R-NONDET", "R-STATE", "R-INITEXTENT"],
         "explanation": "Interprocedural effect analysis (MOD/FREE summaries over access-path regions with pointer roots, fixpoint over "
                        "the call graph, virtual calls by class hierarchy) shows that the call closure of every save in the persisted cone "
                        "writes only the stream and frees nothing; tag identity, element-to-field restoration and extent/padding rules show "
                        "the image bytes are a function of the object and that a loaded object can reproduce them.",
-        "decided": ["save closure: no write to the object, to anything reachable from it, to a global or through another parameter (R-SAVEPURE)",
+        "decided": ["a byte array saved up to a cursor member is stored into between any two consecutive advances of the cursor in the building constructor (R-CURSORFILL, definite form; found the last byte of the HASHHF text, fixed 89c3c75)",
+                    "save closure: no write to the object, to anything reachable from it, to a global or through another parameter (R-SAVEPURE)",
                     "no query/save frees dictionary memory; no loader leaves a used field dangling: histories save;save, load;save (R-KILLUSE)",
                     "the tag a save writes is the kind's own on every creation path (R-TAGSELF)",
                     "every image element is restored into the field save writes it from (R-RESAVE)",
